@@ -12,6 +12,7 @@ import DeapModel.Lemmas.C06
 import DeapModel.Lemmas.C06Wheel
 import DeapModel.Lemmas.C06Lex
 import DeapModel.Lemmas.C06Dcd
+import DeapModel.Lemmas.C06Double
 
 set_option linter.unusedSectionVars false
 set_option linter.unusedSimpArgs false
@@ -90,6 +91,13 @@ theorem length_lexicase (rule : Rule) (w : List Rat) (pop : Pop) (k : Nat) (t t'
     (h : selLexicaseWith rule w pop k t = some (res, t')) : res.length = k := repeatM_length _ h
 
 example : selRandom 3 2 [Draw.choice 0, Draw.choice 2] = some ([0, 2], []) := by decide
+
+/-- `selRandom` is total on valid tapes: it returns exactly the drawn individuals. -/
+theorem random_total (n : Nat) (l : List Nat) (hl : ∀ i ∈ l, i < n) (t : Tape) :
+    selRandom n l.length (l.map Draw.choice ++ t) = some (l, t) :=
+  selRandom_spec.2 ⟨rfl, rfl, hl⟩
+
+example : ∀ i ∈ [0, 2, 2], i < 3 := by decide
 example : selDoubleTournament [⟨[1], 2, 0⟩, ⟨[3], 1, 0⟩] 0 2 1 false [] = some ([], []) := by
   simp [selDoubleTournament, fitTournament, Selection.repeatM]
 
@@ -245,6 +253,130 @@ theorem double_winner_fitness_first (pop : Pop) (k fs : Nat) (ps : Rat) (t t' : 
       obtain ⟨_, hl, hlt⟩ := selRandom_spec.1 h1
       exact ⟨asp, hl, h2, fun a ha => ⟨hlt a ha, h3 a ha⟩⟩
   · simp at h
+
+/-! #### The parsimony stage
+
+`parsimonyPick pop ps i1 i2 r` (`Lemmas/C06Double.lean`) is the statement's size tournament: the
+smaller of the two individuals wins iff `r < parsimony_size / 2`; with equal sizes the first one wins
+iff `r < 1/2`.  The two theorems characterise the operator completely in tape terms. -/
+
+/-- Size tournament first: the tape consists, per selected individual, of `fitness_size` triples
+(choice, choice, coin); each triple yields its parsimony pick, and the selected individual is
+`max(…, key=fitness)` (first maximum) of these picks.  Conversely every such tape yields that result. -/
+theorem double_size_first_iff (pop : Pop) (k fs : Nat) (ps : Rat) (t t' : Tape) (res : List Nat) :
+    selDoubleTournament pop k fs ps false t = some (res, t') ↔
+      (1 ≤ ps ∧ ps ≤ 2) ∧ ∃ trace : List (List (Nat × Nat × Rat)),
+        t = trace.flatMap (fun trips => trips.flatMap enc3) ++ t' ∧ trace.length = k ∧
+        List.Forall₂ (fun win trips => trips.length = fs ∧ (∀ d ∈ trips, Valid3 pop.length d) ∧
+          pyMax (fitGt pop) (trips.map (fun d => parsimonyPick pop ps d.1 d.2.1 d.2.2)) = some win) res trace := by
+  unfold selDoubleTournament
+  by_cases hps : 1 ≤ ps ∧ ps ≤ 2
+  · simp only [hps, and_self, ↓reduceIte, Bool.false_eq_true, true_and]
+    exact repeatM_iff_trace _ (fun trips : List (Nat × Nat × Rat) => trips.flatMap enc3) _
+      (fun t x t' => fitStep_size_iff pop ps fs t t' x) k t res t'
+  · simp [hps]
+
+/-- Fitness tournament first: per selected individual the tape holds two groups of `fitness_size`
+choices and a coin; the selected individual is the parsimony pick between the two groups' fitness
+winners (`max`, first maximum). -/
+theorem double_fitness_first_iff (pop : Pop) (k fs : Nat) (ps : Rat) (t t' : Tape) (res : List Nat) :
+    selDoubleTournament pop k fs ps true t = some (res, t') ↔
+      (1 ≤ ps ∧ ps ≤ 2) ∧ ∃ trace : List (List Nat × List Nat × Rat),
+        t = trace.flatMap encF ++ t' ∧ trace.length = k ∧
+        List.Forall₂ (fun win d => d.1.length = fs ∧ d.2.1.length = fs ∧
+          (∀ a ∈ d.1, a < pop.length) ∧ (∀ a ∈ d.2.1, a < pop.length) ∧ 0 ≤ d.2.2 ∧ d.2.2 < 1 ∧
+          ∃ w1 w2, pyMax (fitGt pop) d.1 = some w1 ∧ pyMax (fitGt pop) d.2.1 = some w2 ∧
+            win = parsimonyPick pop ps w1 w2 d.2.2) res trace := by
+  unfold selDoubleTournament
+  by_cases hps : 1 ≤ ps ∧ ps ≤ 2
+  · simp only [hps, and_self, ↓reduceIte, true_and]
+    exact repeatM_iff_trace _ encF _ (fun t x t' => sizeStep_fit_iff pop ps fs t t' x) k t res t'
+  · simp [hps]
+
+/-- The parsimony rule itself: the smaller individual wins exactly for `r < parsimony_size/2`,
+with equal sizes the first one exactly for `r < 1/2`. -/
+theorem parsimony_rule (pop : Pop) (ps : Rat) (i1 i2 : Nat) (r : Rat) :
+    (sizeAt pop i1 < sizeAt pop i2 → (parsimonyPick pop ps i1 i2 r = i1 ↔ r < ps / 2) ∧
+        (r < ps / 2 → parsimonyPick pop ps i1 i2 r = i1) ∧ (¬ r < ps / 2 → parsimonyPick pop ps i1 i2 r = i2)) ∧
+    (sizeAt pop i2 < sizeAt pop i1 →
+        (r < ps / 2 → parsimonyPick pop ps i1 i2 r = i2) ∧ (¬ r < ps / 2 → parsimonyPick pop ps i1 i2 r = i1)) ∧
+    (sizeAt pop i1 = sizeAt pop i2 →
+        (r < 1 / 2 → parsimonyPick pop ps i1 i2 r = i1) ∧ (¬ r < 1 / 2 → parsimonyPick pop ps i1 i2 r = i2)) := by
+  unfold parsimonyPick
+  refine ⟨?_, ?_, ?_⟩
+  · intro h
+    have hne : sizeAt pop i1 ≠ sizeAt pop i2 := by omega
+    simp only [hne, h, ↓reduceIte]
+    refine ⟨?_, fun hr => by simp [hr], fun hr => by simp [hr]⟩
+    by_cases hr : r < ps / 2
+    · simp [hr]
+    · simp only [hr, ↓reduceIte, iff_false]
+      intro he; rw [he] at h; omega
+  · intro h
+    have hne : sizeAt pop i1 ≠ sizeAt pop i2 := by omega
+    have hnl : ¬ sizeAt pop i1 < sizeAt pop i2 := by omega
+    simp only [hne, hnl, ↓reduceIte]
+    exact ⟨fun hr => by simp [hr], fun hr => by simp [hr]⟩
+  · intro h
+    simp only [h, ↓reduceIte]
+    exact ⟨fun hr => if_pos hr, fun hr => if_neg hr⟩
+
+/-- Totality, size tournament first: for an admissible parsimony size, `fitness_size ≥ 1` and any
+valid tape the operator returns (no exception). -/
+theorem double_total_size_first (pop : Pop) (fs : Nat) (hfs : 0 < fs) (ps : Rat) (hps : 1 ≤ ps ∧ ps ≤ 2)
+    (trace : List (List (Nat × Nat × Rat)))
+    (hv : ∀ trips ∈ trace, trips.length = fs ∧ ∀ d ∈ trips, Valid3 pop.length d) (t : Tape) :
+    ∃ res, selDoubleTournament pop trace.length fs ps false
+      (trace.flatMap (fun trips => trips.flatMap enc3) ++ t) = some (res, t) := by
+  obtain ⟨res, hres⟩ := forall₂_exists (R := fun win (trips : List (Nat × Nat × Rat)) =>
+      trips.length = fs ∧ (∀ d ∈ trips, Valid3 pop.length d) ∧
+      pyMax (fitGt pop) (trips.map (fun d => parsimonyPick pop ps d.1 d.2.1 d.2.2)) = some win) trace (by
+    intro trips ht
+    obtain ⟨hl, hd⟩ := hv trips ht
+    have hne : trips.map (fun d => parsimonyPick pop ps d.1 d.2.1 d.2.2) ≠ [] := by
+      intro h0
+      have : trips = [] := by simpa using h0
+      rw [this] at hl; simp at hl; omega
+    obtain ⟨w, hw⟩ := pyMax_isSome pop hne
+    exact ⟨w, hl, hd, hw⟩)
+  exact ⟨res, (double_size_first_iff pop _ fs ps _ t res).2 ⟨hps, trace, rfl, rfl, hres⟩⟩
+
+/-- Totality, fitness tournament first. -/
+theorem double_total_fitness_first (pop : Pop) (fs : Nat) (hfs : 0 < fs) (ps : Rat) (hps : 1 ≤ ps ∧ ps ≤ 2)
+    (trace : List (List Nat × List Nat × Rat))
+    (hv : ∀ d ∈ trace, d.1.length = fs ∧ d.2.1.length = fs ∧ (∀ a ∈ d.1, a < pop.length) ∧
+      (∀ a ∈ d.2.1, a < pop.length) ∧ 0 ≤ d.2.2 ∧ d.2.2 < 1) (t : Tape) :
+    ∃ res, selDoubleTournament pop trace.length fs ps true (trace.flatMap encF ++ t) = some (res, t) := by
+  obtain ⟨res, hres⟩ := forall₂_exists (R := fun win (d : List Nat × List Nat × Rat) =>
+      d.1.length = fs ∧ d.2.1.length = fs ∧
+      (∀ a ∈ d.1, a < pop.length) ∧ (∀ a ∈ d.2.1, a < pop.length) ∧ 0 ≤ d.2.2 ∧ d.2.2 < 1 ∧
+      ∃ w1 w2, pyMax (fitGt pop) d.1 = some w1 ∧ pyMax (fitGt pop) d.2.1 = some w2 ∧
+        win = parsimonyPick pop ps w1 w2 d.2.2) trace (by
+    intro d hd
+    obtain ⟨h1, h2, h3, h4, h5, h6⟩ := hv d hd
+    have hne : ∀ g : List Nat, g.length = fs → g ≠ [] := by
+      intro g hg h0; rw [h0] at hg; simp at hg; omega
+    obtain ⟨w1, hw1⟩ := pyMax_isSome pop (hne _ h1)
+    obtain ⟨w2, hw2⟩ := pyMax_isSome pop (hne _ h2)
+    exact ⟨_, h1, h2, h3, h4, h5, h6, w1, w2, hw1, hw2, rfl⟩)
+  exact ⟨res, (double_fitness_first_iff pop _ fs ps _ t res).2 ⟨hps, trace, rfl, rfl, hres⟩⟩
+
+example : (∀ trips ∈ [[((0 : Nat), (1 : Nat), (1 / 4 : Rat))]], trips.length = 1 ∧ ∀ d ∈ trips, Valid3 2 d) ∧
+    (∀ d ∈ [(([0] : List Nat), ([1] : List Nat), (3 / 4 : Rat))], d.1.length = 1 ∧ d.2.1.length = 1 ∧
+      (∀ a ∈ d.1, a < 2) ∧ (∀ a ∈ d.2.1, a < 2) ∧ 0 ≤ d.2.2 ∧ d.2.2 < 1) := by
+  constructor
+  · intro trips ht
+    simp only [List.mem_singleton] at ht
+    subst ht
+    refine ⟨rfl, ?_⟩
+    intro d hd
+    simp only [List.mem_singleton] at hd
+    subst hd
+    refine ⟨by decide, by decide, ?_, ?_⟩ <;> norm_num
+  · intro d hd
+    simp only [List.mem_singleton] at hd
+    subst hd
+    refine ⟨rfl, rfl, by decide, by decide, ?_, ?_⟩ <;> norm_num
 
 example : selDoubleTournament [⟨[1], 2, 0⟩, ⟨[3], 1, 0⟩, ⟨[2], 1, 0⟩] 1 2 (7 / 5) true
     [Draw.choice 0, Draw.choice 2, Draw.choice 1, Draw.choice 1, Draw.random 0] = some ([2], []) := by
@@ -603,6 +735,24 @@ theorem epsilon_lexicase_tol (e : Rat) (he : 0 ≤ e) (w : List Rat) (pop : Pop)
     rw [h2 hne, hperm.mem_iff]; exact List.mem_range.2 hc
   obtain ⟨p, hp, rfl⟩ := List.mem_map.1 hcm
   exact (h1 p hp).2.2
+
+/-- Automatic-ε lexicase, spelled out: an individual that is at least as good as the winner on every
+case is, at every case the loop processed, still a candidate and not better than the winner by more
+than the median absolute deviation of the candidates' values on that case; and unless it is the
+winner itself every case was processed. -/
+theorem auto_lexicase_tol (w : List Rat) (pop : Pop) (k : Nat) (t t' : Tape) (res : List Nat)
+    (h : selLexicaseWith Rule.auto w pop k t = some (res, t')) :
+    ∀ win ∈ res, ∃ cases : List Nat, cases.Perm (List.range (nCases w pop)) ∧
+      ∀ x, x < pop.length → (∀ c, c < nCases w pop → geqOn w (pop.map (values w)) c x win) →
+        (∀ p ∈ lexTrace Rule.auto w (pop.map (values w)) cases (List.range pop.length),
+          x ∈ p.2 ∧ win ∈ p.2 ∧
+          ¬ betterBy w (pop.map (values w)) p.1 x win
+            (median ((p.2.map (fun i => valAt (pop.map (values w)) i p.1)).map
+              (fun v => absRat (v - median (p.2.map (fun i => valAt (pop.map (values w)) i p.1))))))) ∧
+        (x ≠ win → (lexTrace Rule.auto w (pop.map (values w)) cases (List.range pop.length)).map Prod.fst = cases) := by
+  intro win hwin
+  obtain ⟨_, cases, hperm, hspec⟩ := lexicase_tol Rule.auto w pop k t t' res h win hwin
+  exact ⟨cases, hperm, hspec⟩
 
 /-- With a non-negative tolerance (`RuleOK`: `ε ≥ 0`; plain and automatic always) on a non-empty
 population of evaluated individuals of one fitness class, the candidate list never becomes empty
